@@ -94,34 +94,48 @@ def kvDeleteTreeTxn (s : State) (idx : Nat) (p : Key) : State :=
     { s2 with index := idxSet s2.index "kvs" idx }
   else s
 
-/-- `kvsLockTxn` -/
-def kvLockTxn (s : State) (idx : Nat) (e : KV) : Except Err (State × Bool × KV) :=
+/-- `kvsLockTxn` up to its write: an error, a refusal (`none`: somebody else holds the lock) or the
+    entry handed to `kvsSetTxn` -/
+def lockDecision (s : State) (idx : Nat) (e : KV) : Except Err (Option KV) :=
   if e.session = "" then .error .missingSession
   else if !sessionLive s e.session then .error .invalidSession
   else if e.key = [] then .error .emptyKey
-  else
-    let go (e' : KV) : Except Err (State × Bool × KV) :=
-      match kvSetTxn s idx { e' with modify := idx } true with
-      | .ok (s', w) => .ok (s', true, w)
-      | .error er => .error er
-    match kvFind s e.key with
+  else match kvFind s e.key with
     | some x =>
-      if x.session = e.session then go { e with create := x.create, lockIdx := x.lockIdx }
-      else if x.session ≠ "" then .ok (s, false, e)
-      else go { e with create := x.create, lockIdx := x.lockIdx + 1 }
-    | none => go { e with create := idx, lockIdx := 1 }
+      if x.session = e.session then .ok (some { e with create := x.create, lockIdx := x.lockIdx, modify := idx })
+      else if x.session ≠ "" then .ok none
+      else .ok (some { e with create := x.create, lockIdx := x.lockIdx + 1, modify := idx })
+    | none => .ok (some { e with create := idx, lockIdx := 1, modify := idx })
 
-/-- `kvsUnlockTxn` -/
-def kvUnlockTxn (s : State) (idx : Nat) (e : KV) : Except Err (State × Bool × KV) :=
+/-- `kvsLockTxn` -/
+def kvLockTxn (s : State) (idx : Nat) (e : KV) : Except Err (State × Bool × KV) :=
+  match lockDecision s idx e with
+  | .error er => .error er
+  | .ok none => .ok (s, false, e)
+  | .ok (some e') =>
+    match kvSetTxn s idx e' true with
+    | .ok (s', w) => .ok (s', true, w)
+    | .error er => .error er
+
+/-- `kvsUnlockTxn` up to its write -/
+def unlockDecision (s : State) (idx : Nat) (e : KV) : Except Err (Option KV) :=
   if e.session = "" then .error .missingSession
   else if e.key = [] then .error .emptyKey
   else match kvFind s e.key with
-    | none => .ok (s, false, e)
+    | none => .ok none
     | some x =>
-      if x.session ≠ e.session then .ok (s, false, e)
-      else match kvSetTxn s idx { e with session := "", lockIdx := x.lockIdx, create := x.create, modify := idx } true with
-        | .ok (s', w) => .ok (s', true, w)
-        | .error er => .error er
+      if x.session ≠ e.session then .ok none
+      else .ok (some { e with session := "", lockIdx := x.lockIdx, create := x.create, modify := idx })
+
+/-- `kvsUnlockTxn` -/
+def kvUnlockTxn (s : State) (idx : Nat) (e : KV) : Except Err (State × Bool × KV) :=
+  match unlockDecision s idx e with
+  | .error er => .error er
+  | .ok none => .ok (s, false, e)
+  | .ok (some e') =>
+    match kvSetTxn s idx e' true with
+    | .ok (s', w) => .ok (s', true, w)
+    | .error er => .error er
 
 /-- `Graveyard.ReapTxn` -/
 def reapTxn (s : State) (upto : Nat) : State := { s with tombs := s.tombs.filter (fun t => !(t.idx ≤ upto)) }
